@@ -128,7 +128,7 @@ per_count("rmtsec", counts_quick=(0, 1, 2), counts_thorough=(0, 1, 2, 3), entry=
 # ------------------------------------------------------------------ grammar (cfg_parse_internal)
 PARSEC = dict(remove=["cfg_getopt", "cfg_setopt", "cfg_addopt", "cfg_addval", "call_function", "cfg_free_value", "cfg_opt_setcomment"],
               carriers=["carriers/parse_carriers.c"], harness="harness/parse_step.c", func="cfg_parse_internal")
-U("parse_step", entry="h_parse_step", cbmc=unw(6) + NOOOM + LEAK, defs={"quick": []},
+U("parse_step", entry="h_parse_step", cbmc=unw(6) + NOOOM + LEAK, defs={"quick": []}, replay="replay/parse_step.c",
   label="proof* (hand-applied invariant rule, DESIGN 5.C01: any state, any token, any flags/verdicts; strings <= 2 bytes only for the copied token text)",
   props=["C01", "C06", "C07", "C12", "C14", "C15", "C18", "C02", "C13", "C17"], cost=60, **PARSEC)
 U("parse_step_args", entry="h_parse_step", cbmc=unw(6) + NOOOM + LEAK, defs={"quick": ["-DCFGV_STEP_ARGS_LEAK_CASE"]},
